@@ -14,8 +14,9 @@ META = {
 LEAVES = 3
 NAMES = {1: "T1", 2: "T2", 3: "T3", 4: "A1", 5: "A2", 6: "F1"}
 PRELUDE = "".join('let T%d = std.contract.from_predicate (fun v => std.trace "T%d" (v != %d)) in\n' % (i, i, i) for i in (1, 2, 3)) + \
-    "let A1 = T1 in\nlet A2 = A1 in\n"
-BASE_BINDS = "(bind 1 (opq 1)) (bind 2 (opq 2)) (bind 3 (opq 3)) (bind 4 (var 1)) (bind 5 (var 4))"
+    "let A1 = T1 in\nlet A2 = A1 in\n" + \
+    "let MkA = fun E => {f | Array E} in\nlet MkD = fun E => {f | {_ : E}} in\n"
+BASE_BINDS = "(bind 1 (opq 1)) (bind 2 (opq 2)) (bind 3 (opq 3)) (bind 4 (var 1)) (bind 5 (var 4)) (bind 7 (opq 70)) (bind 8 (opq 80))"
 FIELD = {0: "f", 1: "g"}
 
 
@@ -70,6 +71,8 @@ def mutate(rng, K):
 def nickel_K(K):
     if K[0] == "v":
         return NAMES[K[1]]
+    if K[0] == "mk":           # a parametrized record contract applied to a leaf: (MkA T1) / (MkD T2)
+        return "(%s %s)" % ("MkA" if K[1] == "A" else "MkD", NAMES[K[2]])
     _, op, fs = K
     parts = []
     for (k, o, p, cs) in fs:
@@ -95,6 +98,8 @@ def sexp_K(K):
             _fresh[0] += 1
             return "(opq %d)" % _fresh[0]
         return "(var %d)" % K[1]
+    if K[0] == "mk":
+        return "(app (var %d) (var %d))" % (7 if K[1] == "A" else 8, K[2])
     _, op, fs = K
     return "(rec %d %s)" % (op, " ".join("(fld %d %d 0 %d (pend %s) (val _))" % (k, o, p, " ".join(sexp_K(c) for c in cs)) for (k, o, p, cs) in fs))
 
@@ -113,12 +118,22 @@ def gen_value(rng, shape):
 
 
 def nickel_V(v):
+    if isinstance(v, tuple):          # ("A", [numbers]) -> {f = [..]},  ("D", [numbers]) -> {f = {k0 = .., k1 = ..}}
+        kind, xs = v
+        if kind == "A":
+            return "{f = [%s]}" % ", ".join(str(x) for x in xs)
+        return "{f = {%s}}" % ", ".join("k%d = %d" % (i, x) for i, x in enumerate(xs))
     if isinstance(v, dict):
         return "{%s}" % ", ".join("%s = %s" % (FIELD[k], nickel_V(v[k])) for k in sorted(v))
     return str(v)
 
 
 def canon_V(v):
+    if isinstance(v, tuple):
+        kind, xs = v
+        if kind == "A":
+            return '{"f":[%s]}' % ",".join("#%d" % x for x in xs)
+        return '{"f":{%s}}' % ",".join('"k%d":#%d' % (i, x) for i, x in enumerate(xs))
     if isinstance(v, dict):
         return "{%s}" % ",".join('"%s":%s' % (FIELD[k], canon_V(v[k])) for k in sorted(v))
     return "#%d" % v
@@ -139,6 +154,13 @@ def attached(K, shadow, v, path, out, field_alias=None):
     """collect (path, leaf, value) obligations and structural failures of contract K on value v"""
     if K[0] == "v":
         out.append((path, resolve(K[1], shadow, field_alias), v))
+        return
+    if K[0] == "mk":
+        if not isinstance(v, tuple) or v[0] != K[1]:
+            out.append((path, "shape", v))
+            return
+        for i, x in enumerate(v[1]):
+            out.append((path + ("f", i), resolve(K[2], shadow, field_alias), x))
         return
     _, op, fs = K
     if not isinstance(v, dict):
@@ -169,6 +191,10 @@ def run(ck):
         {"shape": None, "c1": [("v", 6)], "c2": [("v", 1)], "s1": 0, "s2": 0, "v": 1, "fa": (1, 2, 1)},
         {"shape": None, "c1": [("v", 1)], "c2": [("v", 6)], "s1": 0, "s2": 0, "v": 1, "fa": (2, 2, 1)},
         {"shape": None, "c1": [("v", 6)], "c2": [("v", 3)], "s1": 0, "s2": 0, "v": 3, "fa": (1, 1, 3)},
+        # one parametrized record contract instantiated with two different arguments: both must be enforced
+        {"shape": "param", "c1": [("mk", "A", 1)], "c2": [("mk", "A", 2)], "s1": 0, "s2": 0, "v": ("A", [5, 2])},
+        {"shape": "param", "c1": [("mk", "D", 2)], "c2": [("mk", "D", 1)], "s1": 0, "s2": 0, "v": ("D", [1, 5])},
+        {"shape": "param", "c1": [("mk", "A", 1)], "c2": [("mk", "A", 1)], "s1": 0, "s2": 0, "v": ("A", [5, 0])},
     ]
     for c in corpus:
         cases.append(c)
@@ -181,6 +207,15 @@ def run(ck):
             return [gen_rec(r, 1, shape) for _ in range(r.range(1, 2))]
         c1 = klist()
         c2 = [mutate(r, r.choice(c1)) for _ in range(r.range(1, 2))] if r.chance(3, 4) else klist()
+        if r.chance(1, 7):
+            # parametrized record contracts (type constructor over the parameter), same or different arguments
+            kind = r.choice(["A", "D"])
+            l1 = r.range(1, 5)
+            l2 = l1 if r.chance(1, 3) else r.range(1, 5)
+            cases.append({"shape": "param", "c1": [("mk", kind, l1)], "c2": [("mk", kind, l2)] + ([("mk", kind, r.range(1, 3))] if r.chance(1, 4) else []),
+                          "s1": int(r.chance(1, 6)), "s2": int(r.chance(1, 6)),
+                          "v": (kind, [r.choice([0, 1, 2, 3, 5]) for _ in range(r.range(1, 3))])})
+            continue
         case = {"shape": shape, "c1": c1, "c2": c2, "s1": int(r.chance(1, 5)), "s2": int(r.chance(1, 5)), "v": gen_value(r, shape)}
         if r.chance(1, 4):
             # a field-bound alias in one operand: (operand, leaf the field is bound to, leaf of an outer `let F1` or 0)
@@ -262,6 +297,7 @@ def run(ck):
         expect_ok = not viol
         ck.hist("outcome", "OK" if od.startswith("OK") else od.split()[1])
         ck.hist("field_bound_alias", "yes" if c.get("fa") else "no")
+        ck.hist("parametrized_contract", "yes" if c["shape"] == "param" else "no")
         for x in (d, nd, sw):
             if m.crashed(x):
                 ck.violation("crash", "interpreter crashed", rep)
@@ -285,7 +321,7 @@ def run(ck):
         if i < 4:
             ck.sample({"program": prog(c, False), "pending_after_merge": a, "model": b, "export": d[:120]})
     ck.coverage["model_more_permissive_cases"] = nmore
-    ck.coverage["rule"] = "case = two lists of contracts for field x (leaf predicates T1..T3 with std.trace, let-bound aliases A1=T1, A2=A1, operands optionally under `let T1 = T2`, a field-bound alias F1 (hidden field of one operand) optionally shadowing an outer `let F1`, record contracts over a common shape with per-field contract lists, optional, default priority, open), the second list mostly a small mutation of the first (strict prefix, extension, flag flip, alias swap); plus a value of that shape. Non-trivial = record contracts or more than 2 contracts"
+    ck.coverage["rule"] = "case = two lists of contracts for field x (leaf predicates T1..T3 with std.trace, let-bound aliases A1=T1, A2=A1, operands optionally under `let T1 = T2`, a field-bound alias F1 (hidden field of one operand) optionally shadowing an outer `let F1`, parametrized record contracts `MkA = fun E => {f | Array E}` / `MkD = fun E => {f | {_ : E}}` instantiated with equal or different leaves, record contracts over a common shape with per-field contract lists, optional, default priority, open), the second list mostly a small mutation of the first (strict prefix, extension, flag flip, alias swap); plus a value of that shape. Non-trivial = record contracts or more than 2 contracts"
     ck.trusted += ["extraction: ExtrOcamlBasic only", "harness bin nkeval (pending=, trace, nodedup)", "python reference outcome in checks/c04.py"]
 
 
